@@ -553,6 +553,15 @@ func main() {
 			plans = append(plans, plan{Kind: k, Markers: r.next(6), Name: fmt.Sprintf("h%d", i), Group: group, Burst: burst, LingerMs: []int{0, 0, 3, 40}[r.next(4)], ScrubEnv: r.next(4) == 0})
 		}
 	}
+	// a caller that has seen many failed launches (whatever Launch keeps per
+	// launch in flight must have been given back on the failure paths too):
+	// 33 launches in a row whose handler exits before Done(), then a healthy one
+	for i := 0; i < 33; i++ {
+		group++
+		plans = append(plans, plan{Kind: "S0", Name: fmt.Sprintf("h%d", i%nHandlers), Group: group})
+	}
+	group++
+	plans = append(plans, plan{Kind: "S1", Markers: 2, Name: "h1", Group: group})
 	var outs []outcome
 	var prior []plan
 	var history [][]plan
